@@ -68,7 +68,7 @@ def container_grid(offsets):
     decls = []
     cells = []
     enums = []
-    for mx in [1, 2, 5, 7, 200, 256, 65535, (1 << 31) - 1, 1 << 49, (1 << 53) - 1, (1 << 63) - 1]:
+    for mx in [0, 1, 2, 5, 7, 200, 256, 65535, (1 << 31) - 1, 1 << 49, (1 << 53) - 1, (1 << 63) - 1]:
         e = mk_enum("Ge%d" % mx, mx)
         enums.append(e)
     decls += enums
@@ -103,6 +103,8 @@ def container_grid(offsets):
         ("dyni32", ("dyn", ("i", 32))),
         ("dyni8", ("dyn", ("i", 8))),
         ("dynf64", ("dyn", ("f64",))),
+        ("dynenum0", ("dyn", ("enum", "Ge0"))),
+        ("arrenum0", ("arr", ("enum", "Ge0"), 3)),
     ]
     for tag, t in leafs:
         for o in offsets:
